@@ -289,11 +289,18 @@ def run(repo, tier) -> Result:
     loops = [n for n in rc.node.body if isinstance(n, ast.For)]
     all_rets = [n for n in ast.walk(rc.node) if isinstance(n, ast.Return)]
     shape = False
-    if len(loops) == 1 and len(all_rets) == 2 and isinstance(loops[0].target, ast.Tuple) and isinstance(loops[0].iter, ast.Call) and call_name(loops[0].iter) == "enumerate":
+    _rc_defs = {}
+    for n_ in ast.walk(rc.node):
+        if isinstance(n_, ast.Assign) and len(n_.targets) == 1 and isinstance(n_.targets[0], ast.Name):
+            _rc_defs.setdefault(n_.targets[0].id, []).append(n_.value)
+    _it = loops[0].iter if loops else None
+    if isinstance(_it, ast.Name) and len(_rc_defs.get(_it.id, ())) == 1:
+        _it = _rc_defs[_it.id][0]  # the scanned iterable held in a local
+    if len(loops) == 1 and len(all_rets) == 2 and isinstance(loops[0].target, ast.Tuple) and isinstance(_it, ast.Call) and call_name(_it) == "enumerate":
         counter = ast.unparse(loops[0].target.elts[0])
         inner = [r for r in all_rets if r in list(ast.walk(loops[0]))]
         last = rc.node.body[-1]
-        shape = len(inner) == 1 and ast.unparse(inner[0].value) == counter and isinstance(last, ast.Return) and ast.unparse(last.value).replace(" ", "") == f"len({rc.params[0]})" and rc.node.body.index(loops[0]) == len(rc.node.body) - 2 and all(not isinstance(x, (ast.If, ast.Return)) for x in rc.node.body[: rc.node.body.index(loops[0])])
+        shape = len(inner) == 1 and ast.unparse(inner[0].value) == counter and isinstance(last, ast.Return) and ast.unparse(last.value).replace(" ", "") == f"len({rc.params[0]})" and rc.node.body.index(loops[0]) == len(rc.node.body) - 2 and all(not isinstance(x, (ast.If, ast.Return)) for x in rc.node.body[: rc.node.body.index(loops[0])]) and isinstance(_it.args[0], ast.Call) and call_name(_it.args[0]) == "reversed" and ast.unparse(_it.args[0].args[0]) == rc.params[0]
     # the same count written with itertools.takewhile:  sum(1 for _ in takewhile(lambda c: <reading of c> is not None, reversed(candles)))
     tw = [c for c in calls_in(rc.node) if call_name(c) == "takewhile" and len(c.args) == 2 and isinstance(c.args[0], ast.Lambda) and isinstance(c.args[1], ast.Call) and call_name(c.args[1]) == "reversed" and ast.unparse(c.args[1].args[0]) == rc.params[0]]
     if tw and not shape:
